@@ -19,6 +19,8 @@ use serde_json::{json, Value};
 mod cli;
 mod common;
 mod fam_array;
+mod fam_create;
+mod gen;
 mod fam_fold;
 mod fam_marginalize;
 mod fam_project;
@@ -37,6 +39,7 @@ fn main() {
     }
     let code = match args[1].as_str() {
         "replay" => replay(&args[2..]),
+        "gen" => gen_cmd(&args[2..]),
         other => {
             eprintln!("unknown command {other}");
             2
@@ -50,6 +53,7 @@ type Runner = fn(&Value, &Ctx) -> Outcome;
 fn family(name: &str) -> Option<Runner> {
     Some(match name {
         "array" => fam_array::run,
+        "create" => fam_create::run,
         "fold" => fam_fold::run,
         "marginalize" => fam_marginalize::run,
         "project" => fam_project::run,
@@ -120,4 +124,33 @@ fn replay(args: &[String]) -> i32 {
     });
     fs::write(&args[2], serde_json::to_string_pretty(&result).unwrap()).expect("write result");
     0
+}
+
+/// sfs-conform gen bcf <in.vcf> <out.bcf>            raw (uncompressed) BCF via the noodles writer
+/// sfs-conform gen bgzf <in> <out> <block size>      BGZF with fixed-size blocks
+fn gen_cmd(args: &[String]) -> i32 {
+    match args.first().map(|s| s.as_str()) {
+        Some("bcf") if args.len() == 3 => {
+            let text = fs::read_to_string(&args[1]).expect("read vcf");
+            match gen::raw_bcf(&text) {
+                Ok(b) => {
+                    fs::write(&args[2], b).expect("write");
+                    0
+                }
+                Err(e) => {
+                    eprintln!("bcf encoding failed: {e}");
+                    2
+                }
+            }
+        }
+        Some("bgzf") if args.len() == 4 => {
+            let data = fs::read(&args[1]).expect("read");
+            fs::write(&args[2], gen::bgzf_chunks(&data, args[3].parse().expect("size"))).expect("write");
+            0
+        }
+        _ => {
+            eprintln!("usage: sfs-conform gen bcf|bgzf ...");
+            2
+        }
+    }
 }
